@@ -373,6 +373,24 @@ def r09_2(ctx, rr):
     rr.check(bool(evs) and evs[0][0] == "clear", "get_in_place:clears-buffer", "get_in_place must clear the caller's buffer before decoding into it (the method exists to reuse one buffer across calls)", gb.span)
     rr.instances += 1
     rr.check(got["replay"] == (("int", 0), mk_op("%", gi, ("field", gs, "k"))), "get_in_place:replay-count", "get_in_place must replay exactly index %% k rear-coded strings after the block head (loop range found: %s)" % (tuple(map(tshow, got["replay"])) if got["replay"] else None,), gb.span)
+    # the binary search of index_of_sorted runs over every block head
+    ibs = F.one(r"^dict::rear_coded_list::RearCodedList::<D, P>::index_of_sorted$")
+    ibs_s = ("var", "self", ibs.params[0]["id"])
+    bsearch = []
+
+    def on_bs(Wk, n, K):
+        if n.get("k") == "MethodCall" and n["name"] in ("binary_search_by", "binary_search", "binary_search_by_key", "partition_point"):
+            bsearch.append((n, Wk.expand(Wk.T.term(n["recv"]))))
+    Walker(F, ibs, on_node=on_bs).run()
+    rr.instances += 1
+    okb = len(bsearch) == 1 and bsearch[0][1] == ("field", ibs_s, "pointers")
+    if not okb and len(bsearch) == 1:
+        # or an explicit prefix of exactly ceil(len / k) pointers
+        t = bsearch[0][1]
+        if t[0] == "index" and t[1] == ("field", ibs_s, "pointers") and t[2][0] == "struct":
+            end = dict(t[2][2]).get("end")
+            okb = end == ("call", "int::div_ceil", (("field", ibs_s, "len"), ("field", ibs_s, "k"))) and dict(t[2][2]).get("start") in (None, ("int", 0))
+    rr.check(okb, "index_of_sorted:search-all-blocks", "index_of_sorted must binary-search the heads of all ceil(len / k) blocks (`self.pointers`): a shorter prefix leaves the last, partial block unreachable (found a search over %s)" % [tshow(t)[:100] for _, t in bsearch], ibs.span)
     # in-block scan of index_of_sorted is clamped by the strings remaining in the last block
     ib = F.one(r"^dict::rear_coded_list::RearCodedList::<D, P>::index_of_sorted$")
     isf = ("var", "self", ib.params[0]["id"])
@@ -433,10 +451,15 @@ def r09_3(ctx, rr):
     pslf = ("var", "self", pb.params[0]["id"])
     clears = []
 
+    pm_push = {id(n): ps for n, ps in walk_with_parents(pb.body)}
+
     def on_if(Wk, n, K):
         sets = [x for x in walk(n["th"]) if x.get("k") == "Assign" and Wk.T.term(x["l"]) == ("field", pslf, "is_sorted")]
-        if sets:
-            clears.append((Wk.expand(Wk.T.term(n["c"])), "el" in n, [x["r"].get("v") for x in sets]))
+        if sets and not any(x.get("k") == "If" and x is not n and any(y is sets[0] for y in walk(x)) for x in walk(n["th"])):
+            # the test itself must not sit under another condition (every pair of consecutive strings is compared,
+            # block heads included)
+            nested = [p for p in pm_push.get(id(n), ()) if p.get("k") in ("If", "Match", "Loop")]
+            clears.append((Wk.expand(Wk.T.term(n["c"])), "el" in n or bool(nested), [x["r"].get("v") for x in sets]))
     Wp = Walker(F, pb)
     Wp.on_if = on_if
     Wp.run()
@@ -453,7 +476,7 @@ def r09_3(ctx, rr):
             if g and o:
                 ok = True
                 cmp_call = o[0][1]
-    rr.check(ok, "push:is_sorted", "push must clear is_sorted exactly when longest_common_prefix reports the previous string greater than the new one (found %s)" % [tshow(c[0]) for c in clears], pb.span)
+    rr.check(ok, "push:is_sorted", "push must clear is_sorted exactly when longest_common_prefix reports the previous string greater than the new one, for every push (the test must not be nested in another condition or have an else branch); found %s" % [(tshow(c[0]), "conditional" if c[1] else "unconditional") for c in clears], pb.span)
     # the order comes from longest_common_prefix(last_str, string)
     rr.instances += 1
     ok = cmp_call is not None and len(cmp_call[2]) == 2 and cmp_call[2][0] == ("field", pslf, "last_str") and mentions(cmp_call[2][1], lambda x: x[0] == "var" and x[1] == pb.params[1]["name"]) and not mentions(cmp_call[2][1], lambda x: x[0] == "field" and x[2] == "last_str")
